@@ -78,7 +78,7 @@ class Scope:
 
 
 class Frame:
-    __slots__ = ("func", "yields", "self_obj", "globals_decl", "nonlocal_decl", "args")
+    __slots__ = ("func", "yields", "self_obj", "globals_decl", "nonlocal_decl", "args", "args0", "_handling")
 
     def __init__(self, func):
         self.func = func
@@ -87,6 +87,8 @@ class Frame:
         self.globals_decl = set()
         self.nonlocal_decl = set()
         self.args = None
+        self.args0 = None
+        self._handling = None
 
 
 NOT_IMPLEMENTED = Opaque("NotImplemented")
@@ -1794,6 +1796,7 @@ class Interp:
             local = self.bind_args(f, args, kwargs)
             fr = Frame(f)
             fr.args = local
+            fr.args0 = dict(local)
             sc = Scope(f.env, f.env.globals if f.env is not None else {}, fr)
             sc.vars = local
             if f.owner is not None and f.kind != "staticmethod" and args:
